@@ -333,7 +333,7 @@ def finish(ctx, mod):
 
 TRUSTED = [
     "Coq 8.16.1 kernel (coqc, full .vo build; vm_compute used for finite sweeps and witnesses; native_compute not used)",
-    "no axioms declared; per-theorem Print Assumptions output listed under 'axioms'",
+    "no axioms declared; per-theorem Print Assumptions output listed under 'axioms' (only the float theorems of C13 depend on axioms: the standard library's real-number and classical axioms, through Flocq)",
     "hand-written Gallina models under coq/Model tied to the code by the correspondence check of this run (vm_compute inside coqc; no extraction)",
     "harness: generators, canonicalisation, harness/minijar.py standing in for a ZODB connection, CPython 3.12, persistent 6.8, pickle",
     "build of the implementation: gcc -O1 of /repo working tree copy with -DBTREES_VERIF=1",
